@@ -54,6 +54,9 @@ type Script struct {
 	NoAutoSave bool   `json:"noAutoSave,omitempty"`
 	Prefix     []Op   `json:"prefix,omitempty"`
 	Op         Op     `json:"op"`
+	// Retry: when the operation returns an error it is repeated once (the caller's
+	// retry); the exit code then reports the retry's result
+	Retry bool `json:"retry,omitempty"`
 }
 
 // Point addresses a crash point: the N-th invocation (1-based, counted from process
@@ -177,4 +180,35 @@ func (r *Runner) RunKilled(sc *Script, pt Point) (killed bool, err error) {
 		}
 	}
 	return false, err
+}
+
+// Faultable reports whether failing the system call (instead of killing the process
+// before it) is a meaningful fault: calls whose error a program can act on.
+func Faultable(name string) bool {
+	switch name {
+	case "openat", "write", "pwrite64", "rename", "renameat", "renameat2", "fsync", "fchmod", "fchmodat", "chmod", "ftruncate", "mkdir", "mkdirat", "linkat", "unlink", "unlinkat":
+		return true
+	}
+	return false
+}
+
+// RunFaulted runs the child to completion while the system call addressed by pt
+// fails with errno (e.g. "EIO", "ENOSPC") instead of being executed. It returns the
+// child's exit code: 0 = the scripted operation returned nil, 80 = it returned an
+// error; anything else is reported as err.
+func (r *Runner) RunFaulted(sc *Script, pt Point, errno string) (exit int, err error) {
+	p, err := r.writeScript(sc, "script-run.json")
+	if err != nil {
+		return -1, err
+	}
+	cmd := exec.Command("strace", "-o", "/dev/null", "-e", "trace="+traceSet, "-e", fmt.Sprintf("inject=%s:error=%s:when=%d", pt.Syscall, errno, pt.N), r.Child, "run", p)
+	cmd.Env = childEnv()
+	out, rerr := cmd.CombinedOutput()
+	if rerr == nil {
+		return 0, nil
+	}
+	if ee, ok := rerr.(*exec.ExitError); ok && ee.ExitCode() == 80 {
+		return 80, nil
+	}
+	return -1, fmt.Errorf("faulted run (%s %s #%d): %v: %s", errno, pt.Syscall, pt.N, rerr, out)
 }
